@@ -909,6 +909,9 @@ class ExcludeRegionState(object):  # pylint: disable=too-many-instance-attribute
             # Capture the last value for each argument encountered for the command
             # Retrieve & remove existing entry, or create new empty arg dict
             pendingArgs = self.pendingCommands.pop(gcode, {})
+            if (not isinstance(pendingArgs, Mapping)):
+                # The whole command was captured under another mode (setting changed while excluding)
+                pendingArgs = {}
             # Append the entry at the end
             self.pendingCommands[gcode] = pendingArgs
 
